@@ -283,6 +283,150 @@ func checkC14(c *Ctx, e *Env) {
 			c.Violate("C14.LANG", key, pos, fmt.Sprintf("%s can produce %q, which its validator /%s/ rejects (format language /%s/)", sp.fn, cex, re, lang), nil)
 		}
 	}
+	// ---------------- VALID: each id validator accepts exactly what its regex accepts
+	// (the LANG/SEP arguments range over "strings the validator accepts"; they are sound only if
+	// acceptance really is a match of the anchored regex — a hand-written replacement that counts
+	// bytes or uses unicode classes accepts more, e.g. a non-ASCII upper-case abbreviation)
+	for _, v := range []struct{ pkg, fn, declared string }{
+		{basePkg, "ValidateCreditTypeAbbreviation", "RegexCreditTypeAbbrev"},
+		{basePkg, "ValidateClassID", "RegexClassID"},
+		{basePkg, "ValidateProjectID", "RegexProjectID"},
+		{basePkg, "ValidateBatchDenom", "RegexBatchDenom"},
+		{basketPkg, "ValidateBasketName", "RegexBasketName"},
+		{basketPkg, "ValidateBasketDenom", "RegexBasketDenom"},
+	} {
+		fn := findFn(m, v.pkg, v.fn)
+		key := v.fn + "=match(" + v.declared + ")"
+		if fn == nil {
+			c.Undecide("C14.VALID", key, "-", "validator function not found")
+			continue
+		}
+		declared, okD := varString(p, v.pkg, v.declared)
+		if !okD {
+			c.Undecide("C14.VALID", key, p.Pos(fn.Pos()), "declared regex source "+v.declared+" is not statically evaluable")
+			continue
+		}
+		// regex match calls on package-level regexps whose language is included in the declared one
+		goodCall := map[*ssa.Call]bool{}
+		var srcs []string
+		for _, ci := range callsIn(fn) {
+			call, isCall := ci.(*ssa.Call)
+			if !isCall || len(call.Call.Args) < 2 {
+				continue
+			}
+			pkg, name := calleePkgName(&call.Call)
+			if pkg != "regexp" || !(strings.HasPrefix(name, "Regexp.Match") || strings.HasPrefix(name, "Regexp.Find")) {
+				continue
+			}
+			ld, isLoad := call.Call.Args[0].(*ssa.UnOp)
+			if !isLoad {
+				continue
+			}
+			gl, isGl := ld.X.(*ssa.Global)
+			if !isGl {
+				continue
+			}
+			src, _, okS := regexSourceOf(p, v.pkg, gl.Name())
+			if !okS || !strings.HasPrefix(src, "^") || !strings.HasSuffix(src, "$") {
+				continue
+			}
+			// the matched subject must be the validator's parameter
+			if prm, isP := call.Call.Args[1].(*ssa.Parameter); !isP || len(fn.Params) == 0 || prm != fn.Params[0] {
+				continue
+			}
+			inc, _, _, err := langIncluded(strings.TrimSuffix(strings.TrimPrefix(src, "^"), "$"), declared)
+			if err == nil && inc {
+				goodCall[call] = true
+				srcs = append(srcs, src)
+			}
+		}
+		ok := len(goodCall) > 0
+		why := ""
+		if ok {
+			paths, complete := enumPaths(fn, 2000)
+			if !complete {
+				ok, why = false, "too many paths"
+			}
+			idx := errResultIndex(fn.Signature)
+			for _, bp := range paths {
+				last := bp[len(bp)-1]
+				ret := last.Instrs[len(last.Instrs)-1].(*ssa.Return)
+				pf := pathFacts(fn, bp, nil)
+				if pf == nil {
+					continue
+				}
+				if idx >= 0 && idx < len(ret.Results) {
+					ev := ret.Results[idx]
+					if ph, isPhi := ev.(*ssa.Phi); isPhi {
+						if e2, has := pf.phis[ph]; has {
+							ev = e2
+						}
+					}
+					if provablyNonNilErr(ev) {
+						continue
+					}
+				}
+				// a success path: some good match call must have come out positive on it
+				matched := false
+				for call := range goodCall {
+					n := &pgNamer{fn: fn, ids: map[ssa.Value]string{}, phis: pf.phis}
+					t := n.term(call, 0)
+					if v, seen := pf.lits[t]; seen && v { // MatchString(...) == true
+						matched = true
+					}
+					if v, seen := pf.lits["("+orderPair(t, "nil")+")"]; seen && !v { // Find…(...) != nil
+						matched = true
+					}
+					if v, seen := pf.lits["("+orderPair(t, "\"\"")+")"]; seen && !v { // FindString(...) != ""
+						matched = true
+					}
+				}
+				if !matched {
+					ok, why = false, fmt.Sprintf("the success return at line %d is reachable without a positive match", posLine(fn, ret))
+				}
+			}
+		} else {
+			why = "no match of the parameter against a package-level anchored regex whose language is within " + v.declared
+		}
+		if ok {
+			c.Hold("C14.VALID", key, p.Pos(fn.Pos()), fmt.Sprintf("every success return lies behind a positive match of the argument against /%s/ ⊆ ^%s$", strings.Join(uniqStrings(srcs), " | "), declared), nil)
+		} else {
+			c.Violate("C14.VALID", key, p.Pos(fn.Pos()), v.fn+" does not accept exactly the strings of its regex ("+why+"): identifiers outside the declared format can be stored and then fail the validators and parsers that assume it", nil)
+		}
+	}
+	// ---------------- GENFK: the induction base of "every stored reference resolves"
+	// Genesis validation is what admits the initial state. What it resolves with a lookup that can fail
+	// — batch → project → class through a store lookup of the class, class → credit type through a
+	// tested map lookup — must stay resolved that way (a plain map index yields zero and checks nothing).
+	{
+		root := findFn(m, "x/ecocredit/v3/genesis", "ValidateGenesis")
+		if root == nil {
+			c.Undecide("C14.GENFK", "ValidateGenesis", "-", "genesis validation entry not found")
+		} else {
+			d := newDimAnalyzer(m)
+			g := NewGraph(p)
+			got := map[string]string{}
+			for f := range g.Closure([]*ssa.Function{root}) {
+				if !g.isSubjectFn(f) || fnPkgPath(f) != fnPkgPath(root) {
+					continue
+				}
+				for k, how := range d.checkedLookups(f) {
+					got[k] = how
+				}
+			}
+			for _, want := range []struct{ dim, what string }{
+				{"Class.Key", "batch → project → class"},
+				{"CreditType.Abbreviation", "class → credit type"},
+			} {
+				how, ok := got[want.dim]
+				if ok {
+					c.Hold("C14.GENFK", want.dim, p.Pos(root.Pos()), "genesis validation resolves "+want.what+" with a lookup that fails on a dangling reference ("+how+")", nil)
+				} else {
+					c.Violate("C14.GENFK", want.dim, p.Pos(root.Pos()), "genesis validation no longer resolves "+want.what+" with a lookup that can fail (no store lookup and no tested map lookup keyed by a "+want.dim+" value): a genesis with a dangling reference would be accepted and imported", nil)
+				}
+			}
+		}
+	}
 	// ---------------- SEP
 	type sepRule struct {
 		key, a, b string
